@@ -37,11 +37,12 @@ const maxSlots = 5
 const nClients = 3
 
 type slot struct {
-	cl        *miniserver.Client
-	dead      bool
-	handshook bool  // sent at least one handshake message (a control-connection object exists)
-	authed    int64 // identity per the model (0 none)
-	loginSeq  int   // sequence number of its last successful login
+	cl         *miniserver.Client
+	dead       bool
+	handshook  bool  // sent at least one handshake message (a control-connection object exists)
+	authed     int64 // identity per the model (0 none)
+	loginSeq   int   // sequence number of its last successful CONTROL login
+	tunnelOnly bool  // its identity comes from a tunnel-type handshake: authenticated, never a control channel
 }
 
 type world struct {
@@ -131,7 +132,14 @@ func (w *world) step(a Action) (*fail, string) {
 		s.handshook = true
 		s.cl.Drain()
 		if a.Kind == "phase1" {
-			s.cl.Handshake(&packet.HandshakeRequest{ClientID: w.ids[ci], Version: "2.0", Protocol: "tcp", ConnectionType: "control"})
+			resp, _, _ := s.cl.Handshake(&packet.HandshakeRequest{ClientID: w.ids[ci], Version: "2.0", Protocol: "tcp", ConnectionType: "control"})
+			// any accepted control-type handshake message on a connection that already proved an
+			// identity (re)installs it as that identity's control channel
+			if resp != nil && resp.NeedResponse && s.authed != 0 {
+				w.seq++
+				s.loginSeq = w.seq
+				s.tunnelOnly = false
+			}
 			break
 		}
 		if s.authed != 0 && s.authed != w.ids[ci] {
@@ -149,11 +157,30 @@ func (w *world) step(a Action) (*fail, string) {
 			w.seq++
 			s.authed = w.ids[ci]
 			s.loginSeq = w.seq
+			s.tunnelOnly = false
 		} else if s.cl.Far.IsClosed() {
 			// evicted while handshaking (e.g. registry at cap): nothing to assert here
 			tag += ":evicted-during"
 		} else {
 			return &fail{"C07/harness/login-failed", fmt.Sprintf("login of client %d on %s: %+v %v", ci, s.cl.ConnID, resp, err)}, tag
+		}
+	case "login_tunnel":
+		// a data connection: tunnel-type handshake (authenticated, registered, but never installed as
+		// the client's control channel); only on connections that carry no identity yet
+		s := pick()
+		if s == nil || s.authed != 0 {
+			return nil, tag + ":skipped"
+		}
+		ci := a.Client % nClients
+		s.handshook = true
+		s.cl.Drain()
+		resp, err := s.cl.Login(w.ids[ci], w.secrets[ci], "tunnel")
+		if err == nil && resp != nil && resp.Success {
+			s.authed = w.ids[ci]
+			s.tunnelOnly = true
+			s.loginSeq = 0
+		} else if !s.cl.Far.IsClosed() {
+			return &fail{"C07/harness/login-failed", fmt.Sprintf("tunnel-type login of client %d: %+v %v", ci, resp, err)}, tag
 		}
 	case "kick":
 		ci := a.Client % nClients
@@ -210,7 +237,7 @@ func (w *world) invariants() *fail {
 		// the most recent successful login that is still live
 		var cur *slot
 		for _, s := range w.live() {
-			if s.authed == id && (cur == nil || s.loginSeq > cur.loginSeq) {
+			if s.authed == id && !s.tunnelOnly && (cur == nil || s.loginSeq > cur.loginSeq) {
 				cur = s
 			}
 		}
@@ -223,6 +250,8 @@ func (w *world) invariants() *fail {
 				return &fail{"C07/lookup-returns-closed-connection", fmt.Sprintf("client %d -> %s which was closed/evicted", ci, cc.GetConnID())}
 			case !cc.IsAuthenticated() || cc.GetClientID() != id:
 				return &fail{"C07/lookup-returns-foreign-connection", fmt.Sprintf("lookup of client id %d returns connection %s authenticated=%v as %d", id, cc.GetConnID(), cc.IsAuthenticated(), cc.GetClientID())}
+			case s.tunnelOnly:
+				return &fail{"C07/lookup-returns-tunnel-type-connection", fmt.Sprintf("client %d -> %s, which only completed a tunnel-type handshake", id, cc.GetConnID())}
 			case s.authed != id:
 				return &fail{"C07/lookup-returns-connection-not-logged-in-as-client", fmt.Sprintf("client %d -> %s (model: %d)", id, cc.GetConnID(), s.authed)}
 			}
@@ -235,6 +264,9 @@ func (w *world) invariants() *fail {
 		// at most one registered connection per client (all handshakes here are control-type)
 		n := 0
 		for _, c := range reg.List() {
+			if sl := byConn[c.GetConnID()]; sl != nil && sl.tunnelOnly {
+				continue
+			}
 			if c.IsAuthenticated() && c.GetClientID() == id {
 				n++
 			}
@@ -311,7 +343,7 @@ func runCase(t vkit.TB, c Case) {
 			vkit.Case("known", false, "")
 			return
 		}
-		if strings.HasPrefix(tag, "login:") {
+		if strings.HasPrefix(tag, "login:") || tag == "login_tunnel" {
 			interesting = true
 		}
 	}
@@ -340,7 +372,7 @@ func genCase(t *rapid.T) Case {
 	n := rapid.IntRange(2, vkit.Pick(22, 40)).Draw(t, "n")
 	c.Actions = append(c.Actions, Action{Kind: "accept"}, Action{Kind: "accept"})
 	for i := 0; i < n; i++ {
-		k := rapid.SampledFrom([]string{"accept", "accept", "login", "login", "login", "login", "phase1", "kick", "heartbeat", "sweep", "close_server", "close_peer"}).Draw(t, "kind")
+		k := rapid.SampledFrom([]string{"accept", "accept", "login", "login", "login", "login", "login_tunnel", "phase1", "kick", "heartbeat", "sweep", "close_server", "close_peer"}).Draw(t, "kind")
 		a := Action{Kind: k, Conn: rapid.IntRange(0, 7).Draw(t, "conn"), Client: rapid.IntRange(0, nClients-1).Draw(t, "client")}
 		if k == "sweep" || k == "kick" {
 			a.Mask = rapid.IntRange(0, 31).Draw(t, "mask")
